@@ -525,7 +525,9 @@ static void GC_Set(var self, var key, var val) {
   gc->minptr = (uintptr_t)key < gc->minptr ? (uintptr_t)key : gc->minptr;
   GC_Resize_More(gc);
   GC_Set_Ptr(gc, key, (bool)c_int(val));
-  if (gc->nitems > gc->mitems) {
+  /* not while a sweep is finalising its list: a destructor that allocates
+  ** would start a second sweep, which throws the first one's list away */
+  if (gc->nitems > gc->mitems and gc->freelist is NULL) {
     GC_Mark(gc);
     GC_Sweep(gc);
   }
